@@ -15,7 +15,7 @@ use cedar_policy::{Context, Entities, Entity, Schema};
 use serde_json::{json, Map, Value as J};
 
 /// JSON for `v` of declared type `t`, choosing per value between explicit and schema-implicit forms
-fn value_json_typed(rng: &mut Rng, gs: &GSchema, v: &GValue, t: &GType, implicit_pct: u32, used_implicit: &mut u64) -> J {
+pub fn value_json_typed(rng: &mut Rng, gs: &GSchema, v: &GValue, t: &GType, implicit_pct: u32, used_implicit: &mut u64) -> J {
     match (gs.resolve(t), v) {
         (GType::Ent(_), GValue::Ent(u)) => {
             if rng.chance(implicit_pct, 100) {
@@ -62,7 +62,7 @@ fn uid_json_choice(rng: &mut Rng, u: &Uid, implicit_pct: u32) -> J {
     }
 }
 
-fn entities_json_typed(rng: &mut Rng, gs: &GSchema, w: &GWorld, implicit_pct: u32, skip: &[Uid], used_implicit: &mut u64) -> J {
+pub fn entities_json_typed(rng: &mut Rng, gs: &GSchema, w: &GWorld, implicit_pct: u32, skip: &[Uid], used_implicit: &mut u64) -> J {
     let mut out = vec![];
     for (u, e) in &w.entities {
         if skip.contains(u) {
